@@ -74,7 +74,7 @@ func branchSelectors(p *load.Prog, fd *ast.FuncDecl, conds []string, a, b string
 }
 
 func checkC15(c *core.Ctx) {
-	c.Explainf("C15 (decided clause: value-path agreement; that Go reads a literal the way Bebop means it is two lexers' semantics and NOT decided). R1: the four places that branch on an enum's signedness (readEnumOptionValue, evaluateBitflagExpr, Validate's duplicate-value sets, Enum.Generate) pick the matching member of (Value, UintValue), and each evaluator's identifier lookup reads its own member. R2: bytesToOpCode packs data[i] << 8*i for i = 0..3, integer opcodes are parsed with ParseUint(_, 0, 32), and the opcode constant is emitted with 0x%%x of that same value. R3: a const's text is the token's text on every arm except the three float specials, which are exactly the strings impossibleGoConst recognises; Const.Generate, Enum.Generate and writeOpCode emit through a constant format string in which the value is an argument (never spliced into the format). R4: the generator's text for enums and consts, folded by the evaluator over probe schemas (every base type, signed/unsigned extremes, hex, negative, flags values, four-character opcodes) and type-checked, defines constants whose go/types constant values equal the schema's. R5: flag dispatch (= C11/R3). R6: a pending opcode reaches its definition (C11/R1b on ReadFile).")
+	c.Explainf("C15 (decided clause: value-path agreement; that Go reads a literal the way Bebop means it is two lexers' semantics and NOT decided). R1: the four places that branch on an enum's signedness (readEnumOptionValue, evaluateBitflagExpr, Validate's duplicate-value sets, Enum.Generate) pick the matching member of (Value, UintValue), and each evaluator's identifier lookup reads its own member. R2: bytesToOpCode packs data[i] << 8*i for i = 0..3, integer opcodes are parsed with ParseUint(_, 0, 32), and the opcode constant is emitted with 0x%%x of that same value. R3: a const's text is the token's text on every arm except the three float specials, which are exactly the strings impossibleGoConst recognises; Const.Generate, Enum.Generate and writeOpCode emit through a constant format string in which the value is an argument (never spliced into the format). R4: the generator's text for enums and consts, folded by the evaluator over probe schemas (every base type, signed/unsigned extremes, hex, negative, flags values, four-character opcodes) and type-checked, defines constants whose go/types constant values equal the schema's. R5: flag dispatch (= C11/R3). R7: the flag-expression parser groups un-parenthesised operator chains to the right (a binary node never has the accumulated tree on its left). R6: a pending opcode reaches its definition (C11/R1b on ReadFile).")
 	p := loadRepo(c)
 	if p == nil {
 		return
@@ -445,6 +445,7 @@ func checkC15(c *core.Ctx) {
 			c.Check("R3", "impossibleGoConst recognises exactly the strings readConst produces", p.Pos(ig.Pos()), okc, fmt.Sprintf("cases %v", cases))
 		}
 	}
+	flagGrouping(c, p)
 	formatRules(c, p)
 	// ---- R4: generated constants carry the schema's values
 	constValueProbe(c, p)
@@ -602,4 +603,60 @@ func constValueProbe(c *core.Ctx, p *load.Prog) {
 	}
 	c.Count("probed_constants", len(wants))
 	c.Floor("probed_constants", 30)
+}
+
+
+// flagGrouping: R7. The value of `A | B << 4` depends on how a chain of
+// operators without parentheses is grouped; this parser has no precedence and
+// groups to the right: a op (b op (c …)). Whatever the shape of the code (the
+// recursive descent of today, or a loop with a fold), a binary node is built
+// with a single operand on its left and the rest of the chain on its right. A
+// node whose *left* side is the tree accumulated so far groups to the left and
+// silently changes the values of existing schemas.
+func flagGrouping(c *core.Ctx, p *load.Prog) {
+	pkg := p.Bebop()
+	info := pkg.TypesInfo
+	n := 0
+	for _, fd := range funcsOfFiles(p, pkg, "parse_expr.go") {
+		// variables of the function that are assigned a binOpNode (accumulators)
+		isBin := func(e ast.Expr) bool {
+			cl, ok := ast.Unparen(e).(*ast.CompositeLit)
+			return ok && typeBaseName(info.TypeOf(cl)) == "binOpNode"
+		}
+		acc := map[types.Object]bool{}
+		ast.Inspect(fd.Body, func(m ast.Node) bool {
+			if as, ok := m.(*ast.AssignStmt); ok && len(as.Lhs) == len(as.Rhs) {
+				for i, l := range as.Lhs {
+					if id, ok := l.(*ast.Ident); ok && isBin(as.Rhs[i]) {
+						acc[info.ObjectOf(id)] = true
+					}
+				}
+			}
+			return true
+		})
+		ast.Inspect(fd.Body, func(m ast.Node) bool {
+			cl, ok := m.(*ast.CompositeLit)
+			if !ok || typeBaseName(info.TypeOf(cl)) != "binOpNode" {
+				return true
+			}
+			n++
+			leftAcc := false
+			for _, el := range cl.Elts {
+				kv, ok := el.(*ast.KeyValueExpr)
+				if !ok || wire.Canon(kv.Key) != "lhs" {
+					continue
+				}
+				if id, ok := ast.Unparen(kv.Value).(*ast.Ident); ok && acc[info.ObjectOf(id)] {
+					leftAcc = true
+				}
+			}
+			c.Check("R7", fmt.Sprintf("%s groups an operator chain to the right (#%d)", fd.Name.Name, n), p.Pos(cl.Pos()), !leftAcc,
+				"the node's left side is the tree built so far: `a op b op c` becomes (a op b) op c instead of a op (b op c), and [flags] members written without parentheses change value (`Read | Write << 4`: 48 instead of 33)")
+			return true
+		})
+	}
+	if n == 0 {
+		c.Undecide("parse_expr.go: no binary node of a flag expression is built")
+	}
+	c.Count("flag_expression_nodes", n)
 }
